@@ -492,6 +492,12 @@ func (e *Engine) builtin(st *State, b *ssa.Builtin, args []Value, c *ssa.CallCom
 		return one(st, r)
 	case "close":
 		return one(st, nil)
+	case "ssa:wrapnilchk":
+		// wrapper of a value-receiver method called through a pointer: panics on a nil pointer
+		if p, ok := args[0].(Ptr); ok && p.IsNil() {
+			return []Outcome{{St: st, Panic: &PanicInfo{Kind: "nil-deref", Msg: "value method called using nil pointer"}}}
+		}
+		return one(st, args[0])
 	}
 	e.abort("unsupported builtin %s", b.Name())
 	return nil
